@@ -158,6 +158,7 @@ func (p *PackageProgress) stageStreamData() error {
 				keys = append(keys, key)
 			}
 			sort.Ints(keys)
+			pack.StreamBody = nil // 文件完成后又收到重传的数据块时 重新组装 不能接在上一次的后面
 			for _, key := range keys {
 				pack.StreamBody = append(pack.StreamBody, pack.OffsetDataRecord[key]...)
 			}
